@@ -74,3 +74,36 @@ Print Assumptions C07_entry.
 Print Assumptions C07_tallies.
 Print Assumptions C07_tallies_uncrawled.
 Print Assumptions C07_nonvacuous.
+
+(* ---- on the code translated from the source on every run (GenTraphN.v: Traph.get_webentities_links(_iter) - the fast
+   variant - and LRUTrie.dfs_with_webentity_iter; sequential meaning: the request runs alone).  For EVERY history, on any trie
+   storage holding the trie file of the state reached and any link storage holding its link file, both directions, with and
+   without auto links: the translated request never fails, writes nothing, and the nested dict it returns has an entry
+   graph[A][B] = n  iff  the SPECIFICATION's network has the edge A -> B (B -> A for the inbound direction) with weight n, and
+   graph[A]["pages_crawled"] / ["pages_uncrawled"] are the specification's page tallies of A.  (`flat` lists the nested dict as
+   (A, 0, B, n) / (A, 1, 0, c) / (A, 2, 0, c) entries.) *)
+From Traph Require GenTraphN GenTraphNFacts GenTrieFacts GenLinksFacts TraceDefs GenStorage.
+Import GenTraphN GenTraphNFacts GenTrieFacts GenLinksFacts GenStorage.
+Theorem C07_source_network : forall d rs h, wf_rules rs -> Forall wf_op h ->
+  let s := run d rs h in let a := srun d rs h in
+  forall sg sgl out auto,
+    trep (TraceDefs.files_of s) sg -> lrep (stubs s) sgl -> fits (nb s * bsz) -> fits (saddr (length (stubs s))) ->
+    exists sg' g, py_traph_get_webentities_links sg sgl out auto = Some (sg', g) /\ pm_array sg' = pm_array sg /\
+      (forall A B n, In (A, 0, B, n) (flat g) <->
+                     In (if out then (A, B, n) else (B, A, n)) (s_network auto a)) /\
+      (forall A c, In (A, 1, 0, c) (flat g) <-> A <> 0 /\ c <> 0 /\ c = fst (s_tally A a)) /\
+      (forall A c, In (A, 2, 0, c) (flat g) <-> A <> 0 /\ c <> 0 /\ c = snd (s_tally A a)).
+Proof.
+  intros d rs h H1 H2 s a sg sgl out auto Hrep Hl Hf1 Hf2.
+  destruct (py_traph_get_webentities_links_spec d rs h H1 H2 sg sgl out auto Hrep Hl Hf1 Hf2) as (sg' & g & E & _ & Harr & Hp).
+  fold s in Hp. exists sg', g. split; [exact E|]. split; [exact Harr|].
+  assert (Hin : forall e, In e (flat g) <-> In e (webentities_links out auto s)).
+  { intro e. split; intro Hi; [exact (Permutation.Permutation_in _ Hp Hi)|exact (Permutation.Permutation_in _ (Permutation.Permutation_sym Hp) Hi)]. }
+  split; [|split].
+  - intros A B n. rewrite Hin. destruct out.
+    + exact (C07_network_out d rs h H1 H2 auto A B n).
+    + exact (C07_network_in d rs h H1 H2 auto A B n).
+  - intros A c. rewrite Hin. exact (C07_tallies d rs h H1 H2 out auto A c).
+  - intros A c. rewrite Hin. exact (C07_tallies_uncrawled d rs h H1 H2 out auto A c).
+Qed.
+Print Assumptions C07_source_network.
